@@ -2,7 +2,6 @@ package c17
 
 import (
 	"fmt"
-	"sync"
 	"sync/atomic"
 	"testing"
 	"time"
@@ -50,7 +49,9 @@ func roundMappingCloser(t vkit.TB, c Case) {
 	defer r.close()
 	k := c.Limit
 	mgr := r.h.GetTunnelManager()
-	var closers sync.WaitGroup
+	// closers in flight: a counter instead of a WaitGroup (a handler that saw active==true may still register
+	// its closer while the test goroutine has started waiting; WaitGroup forbids Add concurrent with Wait)
+	var pending atomic.Int32
 	var active atomic.Bool
 	var delivered atomic.Int32
 	active.Store(true)
@@ -59,9 +60,9 @@ func roundMappingCloser(t vkit.TB, c Case) {
 			return
 		}
 		started := make(chan struct{})
-		closers.Add(1)
+		pending.Add(1)
 		go func() {
-			defer closers.Done()
+			defer pending.Add(-1)
 			close(started)
 			deadline := time.Now().Add(50 * time.Millisecond)
 			for spins := 0; mgr.GetTunnel(tunnelID) == nil; spins++ {
@@ -94,7 +95,11 @@ func roundMappingCloser(t vkit.TB, c Case) {
 		}
 	}
 	active.Store(false)
-	closers.Wait()
+	// every offered connection has been dialed (feedOne waits for that), so every hook has run and registered
+	// its closer; wait for the closers to finish
+	for wait := time.Now().Add(5 * time.Second); pending.Load() > 0 && time.Now().Before(wait); {
+		time.Sleep(200 * time.Microsecond)
+	}
 	// quiescence: every tunnel the manager knows is open and vice versa
 	for i := 0; i < 400 && mgr.CountTunnels() != int(r.cl.open.cur.Load()); i++ {
 		time.Sleep(500 * time.Microsecond)
